@@ -228,20 +228,16 @@ fn wall_geometry(wall: &hulc::bdl::Wall, bdl: &Data) -> Result<WallGeom, Error> 
         (None | Some("TOP"), Some(ref polygon)) => polygon.as_vec(),
         // 3. Elementos TOP definidos por la geometría de su espacio
         (Some("TOP"), None) => {
-            // Giramos el polígono según la desviación respecto al norte del opaco y el espacio
-            // El giro global del edificio respecto al norte ya está incluido
-            let azimuth = orientation_bdl_to_52016(
-                space.angle_with_building_north + wall.angle_with_space_north,
-            );
+            // Giramos el polígono según la desviación respecto al norte del opaco
+            // El giro del espacio y el global del edificio respecto al norte ya están incluidos en el azimuth del elemento
+            let azimuth = orientation_bdl_to_52016(wall.angle_with_space_north);
             space_polygon.rotate(azimuth.to_radians()).as_vec()
         }
         // 4. Elementos BOTTOM definidos por la geometría de su espacio
         (Some("BOTTOM"), None) => {
-            // Giramos el polígono según la desviación respecto al norte del opaco y el espacio
-            // El giro global del edificio respecto al norte ya está incluido
-            let azimuth = orientation_bdl_to_52016(
-                space.angle_with_building_north + wall.angle_with_space_north,
-            );
+            // Giramos el polígono según la desviación respecto al norte del opaco
+            // El giro del espacio y el global del edificio respecto al norte ya están incluidos en el azimuth del elemento
+            let azimuth = orientation_bdl_to_52016(wall.angle_with_space_north);
             // Hacemos un mirror (y -> -y para cada punto) sobre el eje X para que el giro del tilt 180 lo deje igual
             space_polygon
                 .rotate(azimuth.to_radians())
